@@ -21,6 +21,30 @@ def _ret(model, q, **kw):
     return fi, r
 
 
+def _leafwise(t):
+    """The leaf-wise reading of `tree_unflatten(treedef(x), [f(a, b) for a, b in zip(leaves(x), treedef(x).flatten_up_to(y))])`: f(x, y), as
+    tree_map(f, x, y) is read (the two spellings of a map over the leaves of x with the matching entries of y)."""
+    if not (t[0] == "call" and T.call_name(t) == "jax.tree_util.tree_unflatten" and len(t[2]) == 2 and t[2][1][0] == "comp" and t[2][1][1] == "list" and len(t[2][1][3]) == 1 and not t[2][1][4]):
+        return t
+    comp = t[2][1]
+    it = comp[3][0][1]
+    cols = list(it[2]) if it[0] == "call" and it[1] == "zip" else [it]
+
+    def tree_of(col):
+        if col[0] == "index" and col[2] == T.ZERO and col[1][0] == "call" and T.call_name(col[1]) == "jax.tree_util.tree_flatten" and col[1][2]:
+            return col[1][2][0]
+        if col[0] == "call" and (T.call_name(col).endswith(".flatten_up_to") or T.call_name(col) == "jax.tree_util.tree_leaves") and len(col[2]) == 1:
+            return col[2][0]
+        return None
+    trees = [tree_of(c) for c in cols]
+    els = [x for x in T.walk(comp[2]) if x[0] == "elem" and x[1] == it]
+    if not els or any(tr is None for tr in trees):
+        return t
+    el = els[0]
+    m = {T.mk_index(el, T.const(i)): tr for i, tr in enumerate(trees)} if len(cols) > 1 else {el: trees[0]}
+    return T.subst(comp[2], m)
+
+
 def run(chk: Check, model):
     chk.rule("C17.denorm", "Denormalize (A7, rational normal forms): offset = (min + max)/2, scale = (max - min)/2; normalize(denormalize(x)) == x and "
                            "denormalize(normalize(y)) == y as identities; denormalize(-1) == min, denormalize(+1) == max; the coefficient of x is scale; apply/inv dispatch")
@@ -109,7 +133,7 @@ def run(chk: Check, model):
     fx, rx = _ret(model, "base.Extend.extend")
     ext = T.mk_call("rex.jax_utils.tree_extend", [S("self.base_params"), p])
     want = T.mk_ite(T.eq(ext, T.NONE, numeric=False), S("self.base_params"), ext)
-    chk.add("C17.pairs", "Extend.extend: base leaf exactly where the supplied leaf is None", rx.ret == want, f"extend = {T.show(rx.ret)[:200]}, expected leafwise (base if supplied is None else supplied) "
+    chk.add("C17.pairs", "Extend.extend: base leaf exactly where the supplied leaf is None", _leafwise(rx.ret) == want, f"extend = {T.show(rx.ret)[:200]}, expected leafwise (base if supplied is None else supplied) "
             "over tree_extend(base, params)", chk.loc(fx))
     # structure of the pytree surgery (what is flattened with which treedef; the jax / equinox primitives themselves are H5)
     ft, rt = _ret(model, "jax_utils.tree_extend")
